@@ -22,7 +22,7 @@ import numpy as np
 from common import *
 import tr_footprint as TR
 
-IMPORTS = "From CV Require Import Base.Tac Base.Cmp Model.C14_Chain Model.C14_Burn Model.C14_Out Model.C14_Warm Model.C14_Gibbs Model.C14_Stream."
+IMPORTS = "From Coq Require String. Import String.StringSyntax. From CV Require Import Base.Tac Base.Cmp Model.C14_Chain Model.C14_Burn Model.C14_Out Model.C14_Warm Model.C14_Gibbs Model.C14_Stream Model.C14_Block. Open Scope string_scope. Open Scope list_scope."
 RULE = ("one case = one (sampler configuration, operation sequence, random seed): operation sequences enumerate every split "
         "position and every checkpoint position 0..N of the sampling phase (N<=8 quick / <=40 thorough), with and without warm-up, "
         "in-memory and on-disk checkpoints, plus multi-split/multi-resume sequences; stateless interface: all (N, Nb) in a grid for "
@@ -41,6 +41,7 @@ SIG_BATCH2 = "Sampler.sample|batch:next-call-overwrites-files"
 SIG_GIBBS0 = "legacy.Gibbs.sample|continuation-after-Ns=0"
 SIG_GRADBUF = "ULA/MALA/NUTS.current_target_grad|aliases-user-gradient-buffer"
 SIG_STEPSDICT = "HybridGibbs.__init__|num_sampling_steps-dict-shared-with-caller"
+SIG_GIBBS_WARM = "legacy.Gibbs.sample|warmup-chain-dropped-by-later-call"
 
 
 def coq_ll(ll, ids):
@@ -519,18 +520,18 @@ class World:
         Lg = self.Lg
         import functools
         P = functools.partial
-        C2 = {("d", "l"): Lg.Conjugate}
+        C2 = lambda xs: {"x": xs, ("d", "l"): Lg.Conjugate}
         table = {
-            "Gibbs": ("std", dict({"x": Lg.LinearRTO}, **C2)),
-            "Gibbs/MH+Conjugate": ("std", dict({"x": P(Lg.MH, scale=0.4)}, **C2)),
-            "Gibbs/CWMH+Conjugate": ("std", dict({"x": Lg.CWMH}, **C2)),
-            "Gibbs/pCN+Conjugate": ("std", dict({"x": P(Lg.pCN, scale=0.3)}, **C2)),
-            "Gibbs/ULA+Conjugate": ("std", dict({"x": P(Lg.ULA, scale=0.01)}, **C2)),
-            "Gibbs/MALA+Conjugate": ("std", dict({"x": P(Lg.MALA, scale=0.05)}, **C2)),
-            "Gibbs/NUTS+Conjugate": ("std", dict({"x": P(Lg.NUTS, adapt_step_size=0.3, max_depth=2)}, **C2)),
+            "Gibbs": ("std", C2(Lg.LinearRTO)),
+            "Gibbs/MH+Conjugate": ("std", C2(P(Lg.MH, scale=0.4))),
+            "Gibbs/CWMH+Conjugate": ("std", C2(Lg.CWMH)),
+            "Gibbs/pCN+Conjugate": ("std", C2(P(Lg.pCN, scale=0.3))),
+            "Gibbs/ULA+Conjugate": ("std", C2(P(Lg.ULA, scale=0.01))),
+            "Gibbs/MALA+Conjugate": ("std", C2(P(Lg.MALA, scale=0.05))),
+            "Gibbs/NUTS+Conjugate": ("std", C2(P(Lg.NUTS, adapt_step_size=0.3, max_depth=2))),
             "Gibbs/LinearRTO+MH+Conjugate": ("std", {"x": Lg.LinearRTO, "d": P(Lg.MH, scale=0.5), "l": Lg.Conjugate}),
             "Gibbs/UGLA+ConjugateApprox+Conjugate": ("lmrf", {"x": Lg.UGLA, "d": Lg.ConjugateApprox, "l": Lg.Conjugate}),
-            "Gibbs/RegularizedLinearRTO+Conjugate": ("reg", dict({"x": Lg.RegularizedLinearRTO}, **C2)),
+            "Gibbs/RegularizedLinearRTO+Conjugate": ("reg", C2(Lg.RegularizedLinearRTO)),
         }
         jkey, strat = table[name]
         return Lg.Gibbs(self.joints[jkey], strat)
@@ -786,17 +787,28 @@ def exp_expected(ref, ops):
     return chain[base:k], cb
 
 
-def stream_check(ref_per, sizes, obs_per, obs_calls, labels):
+def tunes_want(ops):
+    """documented contract of warmup(Nb, tune_freq): tune(interval, count) after every interval-th transition of the call,
+    interval = max(int(tune_freq * Nb), 1), count = number of earlier tunings of this call"""
+    want = []
+    for o in ops:
+        if o[0] == "W":
+            ti = max(int((o[2] / o[3]) * o[1]), 1)
+            want += [(i, ti, i // ti) for i in range(o[1]) if (i + 1) % ti == 0]
+    return want
+
+
+def stream_check(ref_per, sizes, obs_per, obs_calls, labels, init=0):
     """the position of the random stream: a call consumes what its transitions consume (measured inside the wrapped
     step / tune / sweep of THIS run) and nothing else, and that is what the same transitions consumed in the one unsplit run"""
     k = 0
     for j, n in enumerate(sizes):
-        inside = sum(obs_per[k:k + n])
+        inside = sum(obs_per[k:k + n]) + (init if j == 0 else 0)      # the first call initialises a sampler of the stateful interface
         if j < len(obs_calls) and obs_calls[j] != inside:
             return ("call %d, %s, consumed %d variates of the random stream, its %d transitions consumed %d: %d were drawn by work done once per "
                     "call (validation, (re)initialisation, set-up), so the next transition does not see the variates it sees in one call" % (
                         j, labels[j], obs_calls[j], n, inside, obs_calls[j] - inside))
-        want = sum(ref_per[k:k + n])
+        want = sum(ref_per[k:k + n]) + (init if j == 0 else 0)
         if j < len(obs_calls) and obs_calls[j] != want:
             return "call %d, %s, consumed %d variates, the same transitions of the unsplit run consumed %d" % (j, labels[j], obs_calls[j], want)
         k += n
@@ -839,7 +851,8 @@ def exp_check(ref, obs, ops):
         return ("resume" if has_r else "split", "state payload differs from the uninterrupted run in %s" % bad)
     if obs["draws"] != ref["draws"]:
         return ("resume" if has_r else "split", "the random stream is consumed differently (%d vs %d draws)" % (len(obs["draws"]), len(ref["draws"])))
-    bad_ = stream_check(ref["per"], [o[1] for o in ops if o[0] != "R"], obs["per"], obs["call_used"], ["%s" % (tuple(o),) for o in ops if o[0] != "R"])
+    bad_ = stream_check(ref["per"], [o[1] for o in ops if o[0] != "R"], obs["per"], obs["call_used"], ["%s" % (tuple(o),) for o in ops if o[0] != "R"],
+                        init=ref["init_draws"])
     if bad_:
         return ("stream", bad_)
     if obs.get("handout"):
@@ -974,6 +987,22 @@ def joint_cols(D, names):
     return [b"".join(canon(a[..., k]) for a in arrs) for k in range(ns)]
 
 
+def gibbs_keeps(repo):
+    """read off the source: does legacy Gibbs._allocate_samples_warmup leave an existing warm-up record alone (an early return)
+    instead of binding samples_warmup to a new array?  fail-closed: False"""
+    import ast
+    try:
+        tree = ast.parse(open(os.path.join(repo, "cuqi", "sampler", "_gibbs.py")).read())
+        for n in ast.walk(tree):
+            if isinstance(n, ast.FunctionDef) and n.name == "_allocate_samples_warmup":
+                for i in ast.walk(n):
+                    if isinstance(i, ast.If) and "samples_warmup" in ast.dump(i.test) and any(isinstance(b, ast.Return) for b in i.body):
+                        return True
+    except Exception:
+        pass
+    return False
+
+
 def run_gibbs(W, calls, nb, seed, scribble=False, strategy="Gibbs"):
     """legacy Gibbs: sample(calls[0], nb); sample(calls[1]); ...  -> stored chain, warm-up chain, lengths returned.
     Every returned dict of Samples is kept and re-read after every later call (or, with scribble, overwritten by
@@ -1027,7 +1056,11 @@ def run_gibbs(W, calls, nb, seed, scribble=False, strategy="Gibbs"):
             if scribble and i < len(calls) - 1:
                 scribble_samples(R)
     names = g.par_names
-    return {"smp": joint_cols(outs[-1], names), "warm": warm, "lens": lens, "handout": led.bad,
+    try:
+        warm_now = joint_cols(g.samples_warmup, names) if (nb and all(np.asarray(g.samples_warmup[n_]).shape[-1] for n_ in names)) else []
+    except Exception:
+        warm_now = ["unreadable"]
+    return {"smp": joint_cols(outs[-1], names), "warm": warm, "warm_now": warm_now, "lens": lens, "handout": led.bad,
             "outs_now": [joint_cols(R, names) for R in outs], "sweeps": sweeps, "per": list(per), "call_used": list(call_used), "nvar": stream.nvar}
 
 
@@ -1043,6 +1076,8 @@ def run_hybrid(W, name, ops, seed, scribble=False):
     J_ = W.joint_of(name)
     joint_fp = deep_fp(J_)          # the user's joint distribution: HybridGibbs works on its own copy
     counts, pre_bad = {}, []
+    snap, visits, visit_bad = {}, [], []
+    htunes, btunes, tune_bad, hbase = [], [], [], [0]
     per, call_used = [], []
     with stream, quiet():
         h = W.make_hybrid(name)
@@ -1060,11 +1095,49 @@ def run_hybrid(W, name, ops, seed, scribble=False):
                 except Exception:
                     return float("nan")
 
+        CACHED = {"current_target_logd": lambda m: m.target.logd(m.current_point),
+                  "current_target_grad": lambda m: m.target.gradient(m.current_point),
+                  "current_likelihood_logd": lambda m: m.likelihood.logd(m.current_point)}
+
         def wrap_block(p, smp):
             orig = smp.step
+            oreinit = smp.reinitialize
+
+            def reinit():
+                # HybridGibbs.step reinitialises the block on its new conditional and restores state and history
+                snap[p] = ({k_: canon_val(getattr(smp, k_)) for k_ in sorted(smp._STATE_KEYS)}, [id(getattr(smp, k_)) for k_ in sorted(smp._HISTORY_KEYS)])
+                return oreinit()
+            smp.reinitialize = reinit
 
             def step():
                 counts[p] = counts.get(p, 0) + 1
+                if counts[p] == 1 and p in snap and not isinstance(smp, W.E.NUTS):
+                    before_, hist_ = snap.pop(p)
+                    after_ = {k_: canon_val(getattr(smp, k_)) for k_ in sorted(smp._STATE_KEYS)}
+                    rec_ = {}
+                    for k_ in sorted(smp._STATE_KEYS):
+                        if k_ in CACHED:
+                            try:
+                                with np.errstate(all="ignore"):
+                                    rec_[k_] = canon_val(CACHED[k_](smp))
+                            except Exception as e_:
+                                rec_[k_] = "unavailable: %s" % type(e_).__name__
+                    want_ = dict(before_, **rec_)
+                    if len(visits) < 8:
+                        visits.append((p, type(smp).__name__, before_, rec_, after_))
+                    if not visit_bad:
+                        diff_ = sorted(k_ for k_ in want_ if want_[k_] != after_.get(k_))
+                        if diff_:
+                            visit_bad.append("block %s (%s), sweep %d: at the first inner step the state keys %s are not those the block held before "
+                                             "HybridGibbs reinitialised it (cached target evaluations: recomputed on the new conditional at the current point)"
+                                             % (p, type(smp).__name__, len(sweeps), diff_))
+                        elif [id(getattr(smp, k_)) for k_ in sorted(smp._HISTORY_KEYS)] != hist_:
+                            visit_bad.append("block %s (%s), sweep %d: the history lists are not the ones the block held before it was reinitialised"
+                                             % (p, type(smp).__name__, len(sweeps)))
+                elif counts[p] == 1 and p in snap:
+                    before_, _h = snap.pop(p)
+                    if not visit_bad and before_.get("current_point") != canon_val(smp.current_point):
+                        visit_bad.append("NUTS block %s, sweep %d: does not start the sweep from its current point" % (p, len(sweeps)))
                 if counts[p] == 1 and not pre_bad:
                     # per-class precomputation (LinearRTO / RegularizedLinearRTO / UGLA blocks): whatever the block derived from
                     # its target at initialisation and does not rewrite in step must be what a sampler initialised now on the
@@ -1133,13 +1206,29 @@ def run_hybrid(W, name, ops, seed, scribble=False):
 
         def htune(*a_, **k_):
             p0_ = stream.nvar
+            sl_, uc_ = (list(a_) + [None, None])[:2]
+            sl_, uc_ = k_.get("skip_len", sl_), k_.get("update_count", uc_)
+            htunes.append((len(h.samples[names[0]]) - hbase[0], int(sl_), int(uc_)))
+            del btunes[:]
             try:
                 return otune(*a_, **k_)
             finally:
                 if per:
                     per[-1] += stream.nvar - p0_
+                if btunes != [(p_, int(sl_), int(uc_)) for p_ in names] and not tune_bad:
+                    tune_bad.append("HybridGibbs.tune(%s, %s) after sweep %d called the block samplers' tune as %s, expected once each, in order, "
+                                    "with the same arguments" % (sl_, uc_, len(sweeps), btunes))
         h.tune = htune
+        for p_ in names:
+            def wrap_tune(p__=p_, orig_=h.samplers[p_].tune):
+                def btune(*a_, **k_):
+                    sl_, uc_ = (list(a_) + [None, None])[:2]
+                    btunes.append((p__, int(k_.get("skip_len", sl_)), int(k_.get("update_count", uc_))))
+                    return orig_(*a_, **k_)
+                return btune
+            h.samplers[p_].tune = wrap_tune()
         for o in ops:
+            hbase[0] = len(h.samples[names[0]])
             v0_ = stream.nvar
             if o[0] == "S":
                 h.sample(o[1])
@@ -1167,6 +1256,8 @@ def run_hybrid(W, name, ops, seed, scribble=False):
             except Exception:
                 gs_ok = False
     return {"smp": smp, "gs_ok": gs_ok, "handout": led.bad, "outs_now": [joint_cols(R, names) for R in outs],
+            "visits": visits,
+            "visit_bad": visit_bad[0] if visit_bad else None, "tunes": list(htunes), "tune_bad": tune_bad[0] if tune_bad else None,
             "sweeps": sweeps, "mh_bad": (mh_bad[0] if mh_bad else None) or (pre_bad[0] if pre_bad else None) or
             ("the joint distribution handed to HybridGibbs was modified by the run (deep comparison)" if deep_fp(J_) != joint_fp else None),
             "mh_checked": tuple(mh_checked), "per": list(per), "call_used": list(call_used), "built": built, "nvar": stream.nvar,
@@ -1228,6 +1319,9 @@ def exp_case(W, cache, name, x0, ops, seed, variant):
         ref.pop("sampler")
         ref.pop("ledger")
         ref["ids"] = ids
+        # what initialisation consumed (the first call of the uninterrupted run initialises the sampler): measured once, there
+        n0_ = next((o[1] for o in nops if o[0] != "R"), 0)
+        ref["init_draws"] = (ref["call_used"][0] - sum(ref["per"][:n0_])) if ref["call_used"] else 0
         ref["ref_ids"] = [ids(ref["init"])] + [ids(b) for b in ref["smp"]]
         cache[key] = ref
     ref = cache[key]
@@ -1255,7 +1349,7 @@ def exp_case(W, cache, name, x0, ops, seed, variant):
         coq_cb([(ids(b), i) for b, i in obs["cb_now"]]), coq_tunes(obs["tunes"]),
         czvec(ref["ref_ids"]), coq_ops(ops), coq_ll(obs["outs_now"], ids),
         cbool(obs["state"] == ref["state"] and obs["draws"] == ref["draws"] and obs["gs_ok"]))
-    expr += " && check_draws %s %s %s %s" % (cnl(ref["per"]), coq_ops(ops), cnl(obs["call_used"]), cnat(obs["nvar"]))
+    expr += " && check_draws %s %s %s %s %s" % (cnl(ref["per"]), cnat(ref["init_draws"]), coq_ops(ops), cnl(obs["call_used"]), cnat(obs["nvar"]))
     sig = ""
     if bad:
         kind = bad[0]
@@ -1329,6 +1423,11 @@ def gibbs_case(W, calls, nb, seed, scribble=False, strategy="Gibbs"):
             bad = ("after the user wrote into the chains returned by earlier calls, the chain returned by the last of the calls %s "
                    "differs from the chain of one call at index %d: the returned Samples wrap the sampler's own storage" % (calls, k))
             sig = SIG_GIBBS_LIVE
+        elif nb > 0 and calls[0] == 0 and obs["warm_now"] != obs["warm"] and 0 in calls[1:]:
+            bad = ("legacy Gibbs sample(0, %d) followed by calls %s: a call without warm-up replaces the recorded warm-up chain by an empty array, so "
+                   "after the zero-length call nothing is left to continue from and the next call starts from the default initial point: the chain "
+                   "differs from one call sample(%d, %d) at stored index %d" % (nb, calls[1:], sum(calls), nb, k))
+            sig = SIG_GIBBS_WARM
         else:
             bad, sig = "chain of repeated calls %s differs from one call at stored index %d" % (calls, k), "legacy.Gibbs.sample|continuation"
     elif obs["warm"] != ref["warm"]:
@@ -1361,6 +1460,24 @@ def gibbs_case(W, calls, nb, seed, scribble=False, strategy="Gibbs"):
                 trivial=len(calls) == 1, kind="DECISION", impl_fail=bad, signature=sig)
 
 
+def gibbs_warm_case(W, calls, nb, seed, keeps, strategy="Gibbs"):
+    """the recorded warm-up chain (Gibbs.samples_warmup) after later calls without warm-up"""
+    meta = {"kind": "gibbs-warm", "calls": calls, "Nb": nb, "seed": seed, "strategy": strategy}
+    obs = run_gibbs(W, calls, nb, seed, strategy=strategy)
+    if "error" in obs:
+        return Case(expr="false", meta=meta, cell="gibbs/legacy/warm-record/error", trivial=False, kind="DECISION",
+                    impl_fail="legacy Gibbs calls %s, Nb=%d raised: %s" % (calls, nb, obs["error"]), signature="legacy.Gibbs.sample|raises")
+    ids = Ids()
+    bad = None
+    if obs["warm_now"] != obs["warm"]:
+        bad = ("legacy Gibbs sample(%d, %d) then %s: after the later calls samples_warmup holds %d of the %d recorded warm-up states -- "
+               "_allocate_samples_warmup(0) binds it to a new empty array in every call" % (
+                   calls[0], nb, ", ".join("sample(%d)" % c for c in calls[1:]), len(obs["warm_now"]), len(obs["warm"])))
+    expr = "check_warm_record %s %s %s %s" % (cbool(keeps), czvec([ids(b) for b in obs["warm"]]), cnat(len(calls) - 1), czvec([ids(b) for b in obs["warm_now"]]))
+    return Case(expr=expr, meta=meta, cell="gibbs/legacy/warm-record/%s" % ("single-call" if len(calls) == 1 else "later-calls"), trivial=len(calls) == 1,
+                kind="DECISION", impl_fail=bad, signature=SIG_GIBBS_WARM if bad else "")
+
+
 def hybrid_case(W, name, ops, seed, scribble=False, cache=None):
     meta = {"kind": "hybrid", "config": name, "ops": [list(o) for o in ops], "seed": seed, "scribble": scribble}
     key_ = (name, json.dumps(normalize(ops)), seed)
@@ -1389,6 +1506,12 @@ def hybrid_case(W, name, ops, seed, scribble=False, cache=None):
         kind = "sweep-record"
     elif obs["mh_bad"]:
         bad, kind = "%s %s: %s" % (name, ops, obs["mh_bad"]), "mh-block"
+    elif obs["visit_bad"]:
+        bad, kind = "%s %s: %s" % (name, ops, obs["visit_bad"]), "block-visit"
+    elif obs["tune_bad"] or obs["tunes"] != tunes_want(ops):
+        bad = "%s %s: %s" % (name, ops, obs["tune_bad"] or "tune was called at (sweep index in the call, skip_len, update_count) = %s, the documented schedule of "
+                             "warmup(Nb, tune_freq) is %s" % (obs["tunes"][:6], tunes_want(ops)[:6]))
+        kind = "tuning-schedule"
     elif obs["handout"]:
         bad, kind = "%s %s: %s" % (name, ops, obs["handout"][1]), "handout:" + obs["handout"][0]
     elif obs["built"] != ref["built"] or stream_check(ref["per"], [o[1] for o in ops], obs["per"], obs["call_used"], ["%s" % (tuple(o),) for o in ops]):
@@ -1408,9 +1531,11 @@ def hybrid_case(W, name, ops, seed, scribble=False, cache=None):
     expr = "check_gibbs %s %s %s %s && check_gibbs_outputs %s %s %s %s && check_sweeps %s %s && %s" % (
         czvec(ref_ids), cnat(0), sizes, czvec([ids(b) for b in obs["smp"]]),
         czvec(ref_ids), cnat(0), sizes, coq_ll(obs["outs_now"], ids),
-        czvec([ids(b) for b in obs["sweeps"]]), czvec([ids(b) for b in obs["smp"]]), cbool(obs["gs_ok"] and not obs["mh_bad"]))
+        czvec([ids(b) for b in obs["sweeps"]]), czvec([ids(b) for b in obs["smp"]]), cbool(obs["gs_ok"] and not obs["mh_bad"] and not obs["visit_bad"]))
     expr += " && check_draws_sizes %s %s %s %s" % (cnl(ref["per"]), clist([cnat(o[1]) for o in ops]), cnl(obs["call_used"]),
                                                   cnat(obs["nvar"] - obs["built"]))
+    if any(o[0] == "W" for o in ops):
+        expr += " && check_tunes %s %s" % (coq_ops(ops), coq_tunes(obs["tunes"]))
     nS = sum(1 for o in ops if o[0] == "S")
     nC = len(ops)
     return Case(expr=expr, meta=meta, cell="gibbs/%s/%s%s%s" % (name, "scribble" if scribble else "split" if nC > 1 else "single",
@@ -1632,6 +1757,28 @@ def hybrid_resume_case(W, name, warm, k, n, seed):
     expr = "check_warm %s %s && check_sweeps %s %s" % (cbool(promised), cbool(same), czvec([ids(b) for b in want]), czvec([ids(b) for b in smp]))
     return Case(expr=expr, meta=meta, cell="gibbs/%s/composite-resume%s" % (name, "+warmup" if warm else ""), trivial=False, kind="DECISION",
                 impl_fail=bad, signature="HybridGibbs.composite-resume|%s" % name.split("/", 1)[1] if bad else "")
+
+
+def visit_cases(W, name, seed):
+    """HybridGibbs.step's reinitialise / restore / recompute of every non-NUTS block against Model/C14_Block.v (visit):
+    state keys before the visit, the harness's own evaluation of the cached quantities, state keys at the first inner step"""
+    r = run_hybrid(W, name, [("W", 2, 1, 2), ("S", 3)], seed)
+    out = []
+    cs_ = lambda t: '"%s"' % t
+    for j, (p, cls, before, rec, after) in enumerate(r["visits"]):
+        ids = Ids()
+        al = lambda d: clist(["(%s, %s)" % (cs_(k), cz(ids(v))) for k, v in sorted(d.items())])
+        keys = sorted(before)
+        want = dict(before, **rec)
+        diff = sorted(k for k in want if want[k] != after.get(k))
+        bad = None
+        if diff:
+            bad = ("%s, block %s (%s), visit %d: state keys %s at the first inner step are not the ones held before the block was reinitialised "
+                   "on its new conditional (cached evaluations: recomputed)" % (name, p, cls, j, diff))
+        expr = "check_visit %s %s %s %s %s" % (clist([cs_(k) for k in keys]), clist([cs_(k) for k in sorted(rec)]), al(before), al(rec), al(after))
+        out.append(Case(expr=expr, meta={"kind": "visit", "config": name, "seed": seed, "j": j}, cell="gibbs/%s/block-visit/%s" % (name, cls),
+                        trivial=False, kind="DECISION", impl_fail=bad, signature="HybridGibbs.block-visit|%s" % name.split("/", 1)[1] if bad else ""))
+    return out
 
 
 def _solo(W, name, x0, ops, seed):
@@ -2122,8 +2269,11 @@ def gen_cases(ctx, rng, thorough_sizes=None):
         for (N, Nb) in ((1, 0), (5, 2), (9, 0), (9, 3), (10, 0), (11, 1)):
             cases.append(guard(adapt_refusal_case, W, name, W.x0(rng, W.leg[name][1]), N, Nb, rng.randint(1, 10 ** 6)))
     # ---- Gibbs
-    for (calls, nb) in (([0, 3], 2), ([0, 2, 1], 3), ([0, 2], 0)):
+    for (calls, nb) in (([0, 3], 2), ([0, 2, 1], 3), ([0, 2], 0), ([0, 0, 3], 2), ([0, 1, 0, 2], 2), ([0, 0, 2], 0)):
         cases.append(guard(gibbs_case, W, calls, nb, rng.randint(1, 10 ** 6)))
+    keeps = gibbs_keeps(ctx.repo)
+    for (calls, nb) in (([3], 2), ([2, 2], 3), ([0, 0, 3], 2), ([1, 0, 1], 1), ([2, 1, 1], 2)):
+        cases.append(guard(gibbs_warm_case, W, calls, nb, rng.randint(1, 10 ** 6), keeps))
     for nb in ([0, 2] if not ctx.thorough else [0, 2, 5]):
         for calls in ([[4], [1, 3], [2, 2], [3, 1], [1, 1, 2], [2, 1, 1]] if not ctx.thorough else
                       [[8]] + [[k, 8 - k] for k in range(1, 8)] + [[1, 1, 2], [2, 1, 1], [3, 2, 3], [1, 1, 1, 1, 1]]):
@@ -2134,7 +2284,7 @@ def gen_cases(ctx, rng, thorough_sizes=None):
     for strategy in W.GIBBS[1:]:
         for nb in (0, 2):
             seed = rng.randint(1, 10 ** 6)
-            for calls in ([[4], [1, 3], [2, 2], [3, 1], [4, 0], [2, 0, 2], [1, 1, 2]] + ([[0, 4]] if nb else [])):
+            for calls in ([[4], [1, 3], [2, 2], [3, 1], [4, 0], [2, 0, 2], [1, 1, 2]] + ([[0, 4], [0, 0, 4]] if nb else [])):
                 cases.append(guard(gibbs_case, W, calls, nb, seed, strategy=strategy))
     for name in W.HYBRID[2:]:
         # several inner steps per sweep, rejecting and exact block samplers: long enough to meet sweeps in which an early
@@ -2150,8 +2300,10 @@ def gen_cases(ctx, rng, thorough_sizes=None):
     for name in W.HYBRID_DIR + W.HYBRID:
         seed = rng.randint(1, 10 ** 6)
         hc = {}
-        for ops in hybrid_split_lattice(ctx, full=name in W.HYBRID_DIR):
+        for ops in hybrid_split_lattice(ctx, full=name in W.HYBRID_DIR + W.HYBRID[:2]):
             cases.append(guard(hybrid_case, W, name, ops, seed, cache=hc))
+    for name in W.HYBRID_DIR + W.HYBRID:
+        cases += _many(visit_cases, W, name, rng.randint(1, 10 ** 6))
     cases.append(guard(stepsdict_case, W, rng.randint(1, 10 ** 6)))
     for name in W.HYBRID + W.HYBRID_DIR:
         for warm in (0, 4):
@@ -2161,8 +2313,7 @@ def gen_cases(ctx, rng, thorough_sizes=None):
         N = ctx.n(5, 12)
         for w in ([], [("W", 3, 1, 4)]):
             seed = rng.randint(1, 10 ** 6)
-            for k in range(N + 1):
-                cases.append(guard(hybrid_case, W, name, w + [("S", k), ("S", N - k)], seed))
+            # (every split position k = 0..N of these two configurations is part of hybrid_split_lattice, full=True)
             cases.append(guard(hybrid_case, W, name, w + [("S", 1), ("S", 2), ("S", 1)], seed))
             cases.append(guard(hybrid_case, W, name, w + [("S", 2), ("S", 2)], seed, scribble=True))
     return cases
@@ -2203,8 +2354,13 @@ def _rerun(ctx, m):
         return legacy_case(W, m["config"], m["x0"], m["N"], m["Nb"], m["seed"], aliased)
     if k == "gibbs":
         return gibbs_case(W, m["calls"], m["Nb"], m["seed"], scribble=m.get("scribble", False), strategy=m.get("strategy", "Gibbs"))
+    if k == "gibbs-warm":
+        return gibbs_warm_case(W, m["calls"], m["Nb"], m["seed"], gibbs_keeps(ctx.repo), strategy=m.get("strategy", "Gibbs"))
     if k == "hybrid":
         return hybrid_case(W, m["config"], [tuple(o) for o in m["ops"]], m["seed"], scribble=m.get("scribble", False))
+    if k == "visit":
+        cs = visit_cases(W, m["config"], m["seed"])
+        return cs[m["j"]] if m["j"] < len(cs) else None
     if k == "twins":
         return twins_case(W, m["config"], m["x0"], m["seed"])
     if k == "refusal":
@@ -2308,6 +2464,10 @@ def known_witnesses(ctx):
     # legacy Gibbs: sample(0, Nb) then sample(M)
     c = gibbs_case(W, [0, 3], 2, 17)
     out[SIG_GIBBS0] = (c.signature == SIG_GIBBS0, c.impl_fail or "continues from the warm-up chain")
+    c = gibbs_warm_case(W, [0, 0, 3], 2, 20, gibbs_keeps(ctx.repo))
+    c2 = gibbs_case(W, [0, 0, 3], 2, 20)
+    out[SIG_GIBBS_WARM] = (c.signature == SIG_GIBBS_WARM or c2.signature == SIG_GIBBS_WARM,
+                           c.impl_fail or c2.impl_fail or "the warm-up record survives later calls and sample(0, 2); sample(0); sample(3) continues from it")
     c = stepsdict_case(W, 18)
     out[SIG_STEPSDICT] = (c.signature == SIG_STEPSDICT, c.impl_fail or "the caller's dict is left alone and may be changed afterwards")
     c = exp_case(W, {}, "MALA/grad-buffer", [0.25, 0.5], [("S", 3), ("R",), ("S", 3)], 19, "mem")
